@@ -600,8 +600,11 @@ var _ = ref.RuleLink
 // a handshake with the client, so nobody could contradict it. It returns ""
 // when the committed filter headers are true or when an honest peer was
 // already connected (then the client had the means to find out).
-func (b *Built) LoneLiarBelieved() string {
-	w := b.W
+func (b *Built) LoneLiarBelieved() string { return b.W.LoneLiarBelieved(b.Honest) }
+
+// LoneLiarBelieved: see Built.LoneLiarBelieved; honestPeers are the peers
+// that serve the best chain and everything about it truthfully.
+func (w *World) LoneLiarBelieved(honestPeers []*netsim.Peer) string {
 	chain, err := ReadChain(w.Svc.BlockHeaders)
 	if err != nil {
 		return ""
@@ -612,7 +615,7 @@ func (b *Built) LoneLiarBelieved() string {
 	}
 	firstHonest := int64(-1)
 	honest := map[string]bool{}
-	for _, hp := range b.Honest {
+	for _, hp := range honestPeers {
 		honest[hp.Addr] = true
 	}
 	for _, e := range w.Log.Snapshot() {
@@ -697,4 +700,26 @@ func (b *Built) ForkDeeperThanOneHeadersMessage() string {
 		return ""
 	}
 	return fmt.Sprintf("the client is on a fork from height %d up to height %d; the honest chain (tip %d) has more work, but the honest peer's headers message for the client's locator covers heights %d..%d only and that part of the honest branch has no more work than the client's branch", f, tip, len(honest)-1, m+1, last)
+}
+
+// LiarAnsweredAlone reports whether some liar sent a false value before any
+// honest peer had completed its handshake (then nobody could contradict it).
+func (w *World) LiarAnsweredAlone(honestPeers []*netsim.Peer) string {
+	firstHonest := int64(-1)
+	honest := map[string]bool{}
+	for _, hp := range honestPeers {
+		honest[hp.Addr] = true
+	}
+	for _, e := range w.Log.Snapshot() {
+		if e.Dir == "ev" && e.Cmd == "handshake" && honest[e.Peer] {
+			firstHonest = e.Seq
+			break
+		}
+	}
+	for addr, l := range w.Liars {
+		if s, ok := l.EarliestTold(); ok && (firstHonest < 0 || s < firstHonest) {
+			return fmt.Sprintf("liar %s sent a false value at log position %d, before the first honest handshake (%d)", addr, s, firstHonest)
+		}
+	}
+	return ""
 }
